@@ -611,6 +611,10 @@ package plenccodec
 //@   loop 2 invariant[C04] 0 <= offset && offset <= len(data) && 0 <= i
 //@   loop 2 decreases len(data) - offset
 //@   ensures[C04] err == nil ==> 0 <= n && n <= len(data)
+//@   # success only when every element has been walked
+//@   ensures[C13] err == nil ==> loopdone_1 || loopdone_2
+//@   loop 1 step[C13] called_Descriptor_read && call_Descriptor_read_arg0 == d.Elements.ptr && offset == head_offset + call_Descriptor_read_r0
+//@   loop 2 step[C13] call_Descriptor_read_arg0 == d.Elements.ptr && len(call_Descriptor_read_arg2) == int(call_ReadVarUint_r0) && i == head_i + 1
 
 //@ func plenccodec.*Descriptor.readAsStruct
 //@   safety C04 C13
@@ -1069,6 +1073,7 @@ package plenccodec
 //@   ensures[C15] j.depth == old(j.depth) && !j.inField
 //@   ensures[C15] old(j.depth) > 0 && old(j.stack[j.depth - 1].state) == 2 ==> j.stack[j.depth - 1].state == 1
 //@   ensures[C15] old(j.depth) > 0 && (old(j.stack[j.depth - 1].state) == 0 || old(j.stack[j.depth - 1].state) == 2) ==> j.data[len(j.data) - 2] == ',' && j.data[len(j.data) - 1] == '\n'
+//@   ensures[C15] called_AppendInt && call_AppendInt_arg1 == v && call_AppendInt_arg2 == 10      # integers exactly, in decimal
 
 //@ func plenccodec.*JSONOutput.Uint64
 //@   safety C15
@@ -1081,6 +1086,7 @@ package plenccodec
 //@   ensures[C15] j.depth == old(j.depth) && !j.inField
 //@   ensures[C15] old(j.depth) > 0 && old(j.stack[j.depth - 1].state) == 2 ==> j.stack[j.depth - 1].state == 1
 //@   ensures[C15] old(j.depth) > 0 && (old(j.stack[j.depth - 1].state) == 0 || old(j.stack[j.depth - 1].state) == 2) ==> j.data[len(j.data) - 2] == ',' && j.data[len(j.data) - 1] == '\n'
+//@   ensures[C15] called_AppendUint && call_AppendUint_arg1 == v && call_AppendUint_arg2 == 10
 
 //@ func plenccodec.*JSONOutput.Float64
 //@   safety C15
@@ -1093,6 +1099,8 @@ package plenccodec
 //@   ensures[C15] j.depth == old(j.depth) && !j.inField
 //@   ensures[C15] old(j.depth) > 0 && old(j.stack[j.depth - 1].state) == 2 ==> j.stack[j.depth - 1].state == 1
 //@   ensures[C15] old(j.depth) > 0 && (old(j.stack[j.depth - 1].state) == 0 || old(j.stack[j.depth - 1].state) == 2) ==> j.data[len(j.data) - 2] == ',' && j.data[len(j.data) - 1] == '\n'
+//@   # the number is written by strconv in the shortest form that parses back to exactly this value ('g', precision -1, 64 bits)
+//@   ensures[C15] called_AppendFloat && call_AppendFloat_arg1 == v && call_AppendFloat_arg2 == 103 && call_AppendFloat_arg3 == -1 && call_AppendFloat_arg4 == 64
 
 //@ func plenccodec.*JSONOutput.Float32
 //@   safety C15
@@ -1105,6 +1113,7 @@ package plenccodec
 //@   ensures[C15] j.depth == old(j.depth) && !j.inField
 //@   ensures[C15] old(j.depth) > 0 && old(j.stack[j.depth - 1].state) == 2 ==> j.stack[j.depth - 1].state == 1
 //@   ensures[C15] old(j.depth) > 0 && (old(j.stack[j.depth - 1].state) == 0 || old(j.stack[j.depth - 1].state) == 2) ==> j.data[len(j.data) - 2] == ',' && j.data[len(j.data) - 1] == '\n'
+//@   ensures[C15] called_AppendFloat && call_AppendFloat_arg2 == 103 && call_AppendFloat_arg3 == -1 && (call_AppendFloat_arg4 == 64 || call_AppendFloat_arg4 == 32)
 
 //@ func plenccodec.*JSONOutput.Bool
 //@   safety C15
@@ -1202,6 +1211,9 @@ package plenccodec
 //@   ensures[C08] r1 == nil ==> mapconv(r0)
 //@   # keys and values are handed to their codecs as pointers into the map's slots: neither codec may expect a map itself
 //@   ensures[C08] r1 == nil ==> called_CodecBuilder_CodecForTypeRegistry && !mapconv(call_CodecBuilder_CodecForTypeRegistry_r0)
+//@   # the protobuf map form exactly when the "proto" tag asks for it
+//@   ensures[C12,C02] r1 == nil ==> (r0.typ == tid("plenccodec.ProtoMapCodec")) == (tag == "proto")
+//@   ensures[C12,C02] r1 == nil && !(tag == "proto") ==> r0.typ == tid("*plenccodec.MapCodec")
 
 //@ # ---- slices of length-delimited elements: count, then every element behind its own length (C02, C05) ----
 //@ # psum(i) is the encoded size of the first i elements, each with its length prefix (ghost, defined by its
